@@ -11,7 +11,7 @@ import warnings
 import numpy as np
 
 from .. import models, zoo
-from .c03 import find, lattice, stack, state_for
+from .c03 import accepts_out, find, lattice, stack, state_for
 
 ID = "C11"
 RULE = (
@@ -58,8 +58,27 @@ def run(case):
     for slab, maker in e["states"]:
         sv = state_for(e, um, slab, maker, n, case["seed"])
 
-        def PA(FF):
+        # the stress/tangent result buffers are reused over the whole rotation sequence, the way a SolidBody reuses
+        # its result arrays from one evaluation to the next (history: every earlier rotated state is "in" the buffer)
+        bufs = {}
+
+        def PA(FF, reuse=False):
             FF = np.ascontiguousarray(FF)
+            if reuse:
+                res = []
+                for fname in ("gradient", "hessian"):
+                    fn = getattr(um, fname)
+                    if accepts_out(fn):
+                        fresh = np.asarray(fn([FF, sv])[0], float)
+                        if fname not in bufs or bufs[fname].shape != fresh.shape:
+                            bufs[fname] = np.full(fresh.shape, 3.5)
+                        r = np.array(fn([FF, sv], out=bufs[fname])[0], dtype=float)
+                        st["trans"] += 1
+                    else:
+                        r = np.asarray(fn([FF, sv])[0], float)
+                    st["trans"] += 1
+                    res.append(r)
+                return res[0], np.broadcast_to(res[1], (3, 3, 3, 3, n, 1))
             P = np.asarray(um.gradient([FF, sv])[0], float)
             A = np.broadcast_to(np.asarray(um.hessian([FF, sv])[0], float), (3, 3, 3, 3, n, 1))
             st["trans"] += 2
@@ -103,7 +122,7 @@ def run(case):
         # rotations
         for qlab, Q in rots:
             # left: objectivity
-            PL, AL = PA(np.einsum("ij,jknq->iknq", Q, F))
+            PL, AL = PA(np.einsum("ij,jknq->iknq", Q, F), reuse=True)
             refP = np.einsum("ij,jknq->iknq", Q, P0)
             refA = np.einsum("ia,kc,ajclnq->ijklnq", Q, Q, A0)
             eP = np.abs(PL - refP).max() / sP
